@@ -150,7 +150,7 @@ class QGen:
             a = opt([self.str_arg(D, P)])
             self._numeric_prefix = False
         elif c == "optint":
-            a = [self.int_arg(D, P)] if r.random() < 0.7 else []
+            a = [self.int_arg(D, P)] if (r.random() < 0.7 or getattr(self, "avoid_none_default", False)) else []
             if not a:
                 self.feat("arg.missing_none_default_typed")
             self._numeric_prefix = False
